@@ -245,6 +245,20 @@ def _shared_state_inventory():
         if isinstance(node, ast.Global):
           for n in node.names:
             found[f'{rel}:{n}'] = 'rebound under `global`'
+      # a store to a class attribute made from inside a function (`type(self).x = ...`, `self.__class__.x = ...`,
+      # `cls.x = ...`): one cell for all instances and threads although the code reads like per-object state (C19-m7)
+      for fn_node in ast.walk(tree):
+        if not isinstance(fn_node, (ast.FunctionDef, ast.AsyncFunctionDef)):
+          continue
+        for node in ast.walk(fn_node):
+          tgts = []
+          if isinstance(node, ast.Assign):
+            tgts = node.targets
+          elif isinstance(node, (ast.AugAssign, ast.AnnAssign)):
+            tgts = [node.target]
+          for t in tgts:
+            if isinstance(t, ast.Attribute) and ast.unparse(t.value) in ('type(self)', 'self.__class__', 'cls'):
+              found[f'{rel}:{fn_node.name}:{ast.unparse(t)}'] = 'class attribute stored from inside a function'
       for cls in ast.walk(tree):
         if not isinstance(cls, ast.ClassDef):
           continue
